@@ -5,7 +5,7 @@
 import os, sys
 sys.path.insert(0, os.path.join(os.environ.get("AIOFTP_REPO", "/repo"), "src"))
 OBLIGATION = 'aioftp.server:list_worker@list::ThrottleStreamIO.__aexit__/no-wait-on-the-peer-after-cancellation:writer.wait_closed'
-MODEL = {'st_nlink!64': 2, 'walltime!68': '0/1', 'wait_future_timeout!41': '0/1', 'tm_M!70': 2, 'st_mode!65': 2997, 'st_mtime!67': '0/1', 'dc_accepted!38': True, 'st_size!63': 2, 'tm_s!74': 0, 'tm_D!71': 27, 'restart_offset!10': 0, 'tm_mi!73': 36, 'data_connection_done!22': True, 'tm_Y!69': 1, 'tm_h!72': 9, 'block_size!0': 1, 'child!74': 'OPath!val!0', 'dc_accepted!43': False, 'dc_accepted!39': False, 'dc_accepted!33': False, 'dc_accepted!30': False, 'dc_accepted!32': False, 'dc_accepted!29': False, 'data_connection_present!21': False, 'filemode!75': 'ABIJCDEFGH', 'fsbool!59': True, 'fsbool!35': True, 'user_done!12': True, 'passive_server_done!20': True, 'logged_done!14': True, 'int2str!77': '2', 'current_directory_done!16': True, 'current_directory_present!15': True, 'readable!36': True, 'passive_server_present!19': True, 'logged_present!13': True, 'int2str!76': '2', 'user_present!11': True, 'auth_ok!27': True}
+MODEL = {'tm_s!109': 0, 'tm_h!107': 11, 'dc_accepted!38': True, 'st_mtime!102': '0/1', 'block_size!0': 1, 'data_connection_done!22': True, 'walltime!103': '0/1', 'tm_D!106': 22, 'wait_future_timeout!48': '0/1', 'restart_offset!10': 0, 'tm_M!105': 3, 'st_size!98': 8, 'tm_Y!104': 1, 'st_mode!100': 2997, 'child!128': 'OPath!val!0', 'st_nlink!99': 2, 'tm_mi!108': 36, 'dc_accepted!50': False, 'dc_accepted!39': False, 'dc_accepted!33': False, 'dc_accepted!30': False, 'dc_accepted!32': False, 'dc_accepted!29': False, 'data_connection_present!21': False, 'user_present!11': True, 'int2str!111': '2', 'int2str!112': '8', 'current_directory_present!52': True, 'current_directory_present!41': True, 'current_directory_done!81': True, 'current_directory_done!53': True, 'current_directory_present!91': True, 'current_directory_done!16': True, 'readable!36': True, 'passive_server_present!19': True, 'current_directory_done!71': True, 'filemode!110': 'IJABCDEFGH', 'fsbool!87': True, 'user_done!12': True, 'fsbool!35': True, 'current_directory_done!92': True, 'passive_server_done!20': True, 'logged_done!14': True, 'current_directory_done!118': True, 'current_directory_present!80': True, 'current_directory_present!15': True, 'current_directory_present!117': True, 'logged_present!13': True, 'current_directory_done!42': True, 'current_directory_present!70': True, 'auth_ok!27': True}
 SOLVER_NOTE = ''
 
 print("obligation", OBLIGATION, "failed; no concrete failing input could be constructed automatically")
